@@ -120,7 +120,10 @@ def gen_cases(rnd, tier):
             pass
     # strings over every code point of both text classes
     allb = bytes(range(256))
-    for it in (c14.CLS["A"](allb), c14.CLS["J"](allb), c14.CLS["A"]('say "hi" \\ \'x\''), c14.CLS["A"]('"'), c14.CLS["A"]('""x""'), c14.CLS["B"](allb)):
+    for it in (c14.CLS["A"](allb), c14.CLS["J"](allb), c14.CLS["A"]('say "hi" \\ \'x\''), c14.CLS["A"]('"'), c14.CLS["A"]('""x""'), c14.CLS["B"](allb),
+               # a backslash where a run ends (end of the text, in front of a quote, in front of a control character), doubled, alone
+               c14.CLS["A"]("\\"), c14.CLS["A"]("C:\\data\\"), c14.CLS["A"]('a\\"b'), c14.CLS["A"]("a\\\nb\\\\"), c14.CLS["A"]("\\\\"), c14.CLS["A"]("'\\'"),
+               c14.CLS["A"]("ends with blank "), c14.CLS["A"](" "), c14.CLS["A"]("a>"), c14.CLS["A"]("<"), c14.CLS["A"]("#x"), c14.CLS["A"]("tab\there")):
         try:
             lits.append(("item", case_item(it)[0]))
         except valrig.Unobservable:
